@@ -124,10 +124,63 @@ def r3(ctx):
         if fn == "function::get_value":
             continue
         tr = [x for x in walk_exprs(h) if x["k"] == "Match" and str(x.get("src", "")).startswith("TryDesugar")]
+        # in a reader that returns an Option, `?` on an Option (`File::open(..).ok()?`) *is* the empty-value fallback: nothing is
+        # propagated to the caller but `None`
+        returns_option = " -> core::option::Option<" in str(ctx.prog.fns[fn].get("sig") or "")
+        if returns_option:
+            tr = [x for x in tr if not str(peel(x["scrut"]).get("ty", "")).startswith("core::ops::control_flow::ControlFlow<core::option::Option<")]
         n += 1
         ctx.obligation(not tr)
         if tr:
             ctx.violation("reader/question-mark/%s" % short(fn, 1), ctx.where(fn, tr[0]), "%s propagates an I/O error with `?`" % short(fn, 1))
+    # get_line_count evaluated (finite interpreter; the file is a stand-in that yields given chunks): the count of a file that
+    # cannot be opened, or whose reading fails part-way, is None - not the lines counted so far -, and Some(newlines) otherwise
+    import interp
+    LC = "util::get_line_count"
+    if LC in ctx.prog.fns:
+        OK, ERR = (lambda x: interp.V("Result::Ok", [x])), interp.V("Result::Err", [interp.Opaque("EIO")])
+        NL = 10
+        scen = {"open fails": (False, [], None), "empty file": (True, [OK([])], 0), "two chunks": (True, [OK([97, NL, 98]), OK([NL, 99, NL]), OK([])], 3),
+                "read fails at once": (True, [ERR], None), "read fails after a chunk": (True, [OK([97, NL]), ERR], None)}
+        lc_bad, lc_n = [], 0
+        for label, (opens, chunks, want) in scen.items():
+            state = {"chunks": list(chunks), "pending": None}
+
+            def call(node, recv, args, it, env, opens=opens, state=state):
+                callee = str(node.get("callee", ""))
+                m_ = node.get("m")
+                if callee.endswith("File::open"):
+                    return (OK({"__file": True}) if opens else ERR,)
+                if "BufReader" in callee and ("::new" in callee or "with_capacity" in callee):
+                    return ({"__reader": True},)
+                if isinstance(recv, dict) and ("__reader" in recv or "__file" in recv):
+                    if m_ == "fill_buf":
+                        if state["pending"] is None:
+                            state["pending"] = state["chunks"].pop(0) if state["chunks"] else OK([])
+                        return (state["pending"],)
+                    if m_ == "consume":
+                        state["pending"] = None
+                        return ((),)
+                if callee.endswith("bytecount::count") and len(args) == 2 and isinstance(args[0], list):
+                    return (sum(1 for b_ in args[0] if b_ == args[1]),)
+                if isinstance(recv, interp.Opaque) and node.get("k") == "MCall":
+                    return (interp.Opaque("%s.%s()" % (recv.what, m_)),)
+                return None
+            ps_ = ctx.prog.fns[LC]["params"]
+            try:
+                got = interp.Interp(call=call, prog=ctx.prog, max_steps=40000).run(ctx.anchor_hir(LC), {ps_[0]["id"]: interp.Opaque("entry")})
+            except interp.Undecided:
+                lc_bad = None       # another way of reading: the structural rules below apply
+                break
+            lc_n += 1
+            g = got.args[0] if isinstance(got, interp.V) and got.name == "Option::Some" else (None if got == interp.NONE else repr(got))
+            if g != want:
+                lc_bad.append("%s: get_line_count gives %s, expected %s" % (label, got, "Some(%d)" % want if want is not None else "None"))
+        if lc_bad is not None:
+            ctx.obligation(not lc_bad)
+            ctx.covered("get_line_count evaluated on 5 file behaviours (open fails, empty, two chunks, read fails at once / after a chunk)", lc_n, distinct_keys=list(scen), exhaustive=True)
+            if lc_bad:
+                ctx.violation("reader/line-count", ctx.where(LC), "a file that cannot be read to its end has no line count (an empty value), a readable one has its number of newline bytes: %s" % "; ".join(lc_bad[:3]))
     # fallbacks
     fall = {"util::get_line_count": "Option::None", "util::get_sha1_file_hash": "String::new()", "util::get_sha256_file_hash": "String::new()",
             "util::get_sha512_file_hash": "String::new()", "util::get_sha3_512_file_hash": "String::new()", "util::is_shebang": "false",
@@ -145,6 +198,9 @@ def r3(ctx):
             consumed = consumed and any((a["k"] == "LetE") or (a["k"] == "Match" and a.get("src") == "Normal") or
                                         (a["k"] == "MCall" and a["m"] in ("is_err", "is_ok", "ok")) or (a["k"] == "Let") for a, _ in chain)
         ok = val in leaves and consumed
+        if not ok and val == "Option::None" and consumed and any("from_residual" in l_ for l_ in leaves) and \
+                " -> core::option::Option<" in str(ctx.prog.fns[fn].get("sig") or ""):
+            ok = True       # the None comes out of `?` on an Option
         n += 1
         ctx.obligation(ok)
         if not ok:
